@@ -43,8 +43,10 @@ def run(ctx):
     for act in ACTIONS:
         if r.coverage.get(act, (0, 0))[0] == 0:
             raise lib.ModelFailure("MC_OSSPS: action %s never taken" % act)
-    for v in VARIANTS:
-        rv = lib.tlc("MC_OSSPS", cfg="MC_OSSPS_" + v, workers=2, timeout=600, heap="3g")
+    import concurrent.futures as cf
+    with cf.ThreadPoolExecutor(4) as ex:
+        refuted = list(ex.map(lambda v: lib.tlc("MC_OSSPS", cfg="MC_OSSPS_" + v, workers=1, timeout=600, heap="2g", tag="MC_OSSPS_" + v), VARIANTS))
+    for v, rv in zip(VARIANTS, refuted):
         if not rv.violation:
             raise lib.ModelFailure("MC_OSSPS with Variant=%s was not refuted: the model lost its bite" % v)
     ctx.notes.append("MC_OSSPS variants %s: each refuted by TLC as required" % ", ".join(VARIANTS))
@@ -60,13 +62,16 @@ def run(ctx):
         traces = [ctx.replay]
     else:
         seeds = [ctx.seed] if q else [ctx.seed, ctx.seed + 1000, ctx.seed + 2000]
+        jobs = []
         for s in seeds:
-            t = os.path.join(ctx.work, "exact-%d.ndjson" % s)
-            lib.run_driver(exe, ["exact", t, scratch, 400 if q else 2500], env={"VERIF_SEED": str(s)}, timeout=900, allow_fail=True)
-            traces.append(t)
-            t = os.path.join(ctx.work, "runs-%d.ndjson" % s)
-            lib.run_driver(exe, ["runs", t, scratch, 40 if q else 120, 0 if q else 1], env={"VERIF_SEED": str(s)}, timeout=1500, allow_fail=True)
-            traces.append(t)
+            sd = os.path.join(scratch, "s%d" % s)      # the drivers run concurrently: one scratch directory each
+            for mode, args in (("exact", [400 if q else 2000]), ("runs", [40 if q else 100, 0 if q else 1])):
+                os.makedirs(os.path.join(sd, mode), exist_ok=True)
+                t = os.path.join(ctx.work, "%s-%d.ndjson" % (mode, s))
+                jobs.append(([mode, t, os.path.join(sd, mode)] + args, {"VERIF_SEED": str(s)}))
+                traces.append(t)
+        with cf.ThreadPoolExecutor(W) as ex:
+            list(ex.map(lambda j: lib.run_driver(exe, j[0], env=j[1], timeout=1500, allow_fail=True), jobs))
     for t in traces:
         if not os.path.exists(t) or os.path.getsize(t) == 0:
             raise lib.ModelFailure("no trace recorded: %s" % t)
